@@ -152,6 +152,44 @@ class Ctx:
                 f"(fails below {threshold}: rule would pass vacuously)")
 
 
+class RuleAlias:
+    """View of a Ctx that files everything a shared rule function reports under another rule id.
+
+    Several properties have a clause in common (a queued trial hidden by a cache watermark breaks C04 as
+    well as C08; a reader that caches an offset inside a half-written record breaks C03 as well as C07).
+    The shared rule functions carry the id of the property they were written for; a property that
+    registers the same clause calls them through this view, so the obligation, the floor and any finding
+    are counted and reported under its own rule id."""
+
+    def __init__(self, ctx, mapping):
+        self._ctx = ctx
+        self._map = dict(mapping)
+
+    def __getattr__(self, name):
+        return getattr(self._ctx, name)
+
+    def _r(self, rule_id):
+        return self._map.get(rule_id, rule_id)
+
+    def rule(self, rule_id, text):
+        return self._ctx.rule(self._r(rule_id), text)
+
+    def count(self, rule_id, what, n=1):
+        return self._ctx.count(self._r(rule_id), what, n)
+
+    def ok(self, rule_id, *a, **k):
+        return self._ctx.ok(self._r(rule_id), *a, **k)
+
+    def fail(self, rule_id, *a, **k):
+        return self._ctx.fail(self._r(rule_id), *a, **k)
+
+    def check(self, cond, rule_id, *a, **k):
+        return self._ctx.check(cond, self._r(rule_id), *a, **k)
+
+    def floor(self, rule_id, *a, **k):
+        return self._ctx.floor(self._r(rule_id), *a, **k)
+
+
 def finish(ctx: Ctx, evidence_dir: str, level: str = "other") -> int:
     """Print the verdict lines, write evidence, return the exit code."""
     pid = ctx.property_id
